@@ -6,7 +6,10 @@ ROOT=$(cd "$(dirname "$0")/.." && pwd); N=${1:-4}
 export GOFLAGS=-mod=mod GOPROXY=off GOSUMDB=off GOTOOLCHAIN=local
 OUT=$(mktemp -d /tmp/seedsweep.XXXXXX)
 one() {
-  d=$1; id=$(basename $d); chk=$(/usr/bin/python3 -c "import json,sys;print(json.load(open('$d/meta.json'))['property'])")
+  d=$1; id=$(basename $d);
+  # SWEEP_RESUME=1: seeds already listed in seeded/SWEEP.txt.prev are copied, not re-run
+  if [ -n "$SWEEP_RESUME" ] && grep -q "^$id " $ROOT/seeded/SWEEP.txt.prev 2>/dev/null; then grep "^$id " $ROOT/seeded/SWEEP.txt.prev | head -1; return; fi
+  chk=$(/usr/bin/python3 -c "import json,sys;print(json.load(open('$d/meta.json'))['property'])")
   wt=$OUT/wt.$id
   git -C /repo worktree add -q --detach "$wt" HEAD 2>/dev/null || { echo "$id $chk WORKTREE-FAILED"; return; }
   if ! (cd "$wt" && git apply "$d/patch.diff" 2>/dev/null); then echo "$id $chk PATCH-DOES-NOT-APPLY"; git -C /repo worktree remove --force "$wt"; return; fi
